@@ -863,7 +863,7 @@ def _native_call(f, args, kw):
         raise PyRaise(ExcV(type(e).__name__, ()))
 
 
-_NATIVE_PURE = ("re.",)
+_NATIVE_PURE = ("re.", "pathlib.PurePath", "pathlib.PurePosixPath", "pathlib.Path", "os.path.splitext", "os.path.basename", "os.path.dirname")
 
 
 def call_external(ip, q, args, kw):
@@ -873,6 +873,11 @@ def call_external(ip, q, args, kw):
     if q.startswith(_NATIVE_PURE):
         import importlib
 
+        if q.startswith("pathlib."):
+            import pathlib
+
+            # pure path arithmetic only (no file-system access): PurePosixPath stands in
+            return _native_call(pathlib.PurePosixPath, args, kw)
         mod, _, fn = q.rpartition(".")
         return _native_call(getattr(importlib.import_module(mod), fn), args, kw)
     if q.startswith("absl.logging.") or q.startswith("logging."):
@@ -903,7 +908,11 @@ def _hypot(ip, a, k):
 
 @external("math.sqrt")
 def _sqrt(ip, a, k):
-    return ops.sqrt(a[0], ip.assume)
+    memo = ip.__dict__.setdefault("_sqrt_memo", {})
+    key = str(term(a[0], "real").sexpr())
+    if key not in memo:
+        memo[key] = ops.sqrt(a[0], ip.assume)
+    return memo[key]
 
 
 @external("math.radians")
